@@ -111,7 +111,12 @@ Print Assumptions C16_spellings_agree.
       FULL STATEMENT (refuted on the faithful model for the list / set spellings, see
       C16_unhashable_spelling_refuted): the same for every spelling v0 that Options.get_in_features maps to the source.
       PROVED for the spellings and wrappers that pass the property-mapping validation (good_spelling: str,
-      frozenset of str, Feature, frozenset of Feature — see C16_good_spellings).                                 *)
+      frozenset of str, Feature, frozenset of Feature — see C16_good_spellings).
+      Scope of the model: a feature is resolved from its own name and options; the merging of a consumer's options
+      into its input features (feature_collection.merge_options, property C15) is not modelled.  In the running
+      system that merging makes the nested forms of depth >= 2 additionally need feature_chainer_parser_key on the
+      inner levels (known finding C16-nested-options-need-protected-keys, observed end to end);
+      C16_any_description_resolves covers descriptions that carry such extra keys.                                *)
 Theorem C16_three_notations_agree_partial : forall gs ph ops src in_group wrap v0,
   universe_ok gs = true -> (forall n, has_dunder (ph n) = false /\ ph n <> []) ->
   chain_ok gs ops = true -> forallb (op_ok_cfg gs) ops = true -> ops <> [] ->
@@ -123,6 +128,17 @@ Theorem C16_three_notations_agree_partial : forall gs ph ops src in_group wrap v
             resolve_chain gs (S (List.length ops)) f = expected_walk ops src.
 Proof. exact three_notations_agree_l. Qed.
 Print Assumptions C16_three_notations_agree_partial.
+
+(* the same for ANY description: each configured level carries the operation under its group's key and one of the
+   good in_features spellings, in the group or in the context options, next to arbitrary further keys that no group
+   of the universe reads (e.g. feature_chainer_parser_key, which the running system needs on inner levels — see the
+   known finding C16-nested-options-need-protected-keys; merging of options between levels is not part of this model) *)
+Theorem C16_any_description_resolves : forall gs rops src f,
+  universe_ok gs = true -> has_dunder src = false -> forallb (op_ok_cfg gs) rops = true ->
+  describes gs rops src f ->
+  resolve_chain gs (S (List.length rops)) f = walk_of rops src.
+Proof. exact describes_resolves_l. Qed.
+Print Assumptions C16_any_description_resolves.
 
 Theorem C16_good_spellings : forall s n g c,
   (s <> [] -> contains comma s = false -> good_spelling (PStr s) (feat s)) /\
@@ -226,6 +242,14 @@ Example C16_examples :
     = expected_walk ex_ops (lit "price") /\
   (match load (json_chain [g_aggr; g_mv] ex_ph (lit "price") (rev ex_ops)) with
    | Ok [f] => resolve_chain [g_aggr; g_mv] 4 f = expected_walk ex_ops (lit "price")
+   | _ => False end) /\
+  (* the nested JSON form with the protected keys the running system needs on inner levels *)
+  (match load (JArr [JObj [(k_name, JStr (lit "x")); (k_options, JObj [(lit "aggregation_type", JStr (lit "sum"));
+            (k_in_features, JObj [(k_name, JStr (lit "y"));
+                                  (k_options, JObj [(lit "aggregation_type", JStr (lit "max"));
+                                                    (lit "feature_chainer_parser_key", JArr [JStr (lit "aggregation_type")])]);
+                                  (k_in_features, JArr [JStr (lit "price")])])])]]) with
+   | Ok [f] => resolve_chain [g_aggr; g_mv] 3 f = walk_of [(0, lit "sum"); (0, lit "max")] (lit "price")
    | _ => False end) /\
   parse_feature_name [lit "aggr"] (lit "__sum_aggr") = PErr /\
   parse_feature_name [lit "aggr"] (lit "a___aggr") = NoParse /\
